@@ -89,3 +89,7 @@ def run(ctx):
       if 'output' in fo:
         od = fmt_desc(describe_operand(b, fo['output']))
         ctx.ob('R18.2', b.n, f'{ty}.output <- that same satpoint\'s outpoint', od == sd + '.outpoint', od[-120:], where(b, s['l']))
+
+
+# sensitivity pack (thorough tier): each seeded edit must be reported by the named rule instance
+MUTANTS = [{'name': 'sat-handler-checks-unbound-only', 'file': 'src/subcommand/server.rs', 'old': '        if Index::is_special_outpoint(satpoint.outpoint) {\n          None\n        } else {\n          let tx = index', 'new': '        if satpoint.outpoint == unbound_outpoint() {\n          None\n        } else {\n          let tx = index', 'expect': ('R18.1', 'Server::sat', 'excludes unbound and lost')}]
